@@ -107,6 +107,9 @@ def init_security(config: ConfigParser) -> None:
     if config.getboolean("pygopherd", "usechroot"):
         chroot_user = config.get("pygopherd", "root")
         os.chroot(chroot_user)
+        # chroot() does not change the working directory; leave no way out
+        # of the new root through a cwd that is still outside of it.
+        os.chdir("/")
         logger.log(f"Chrooted to {chroot_user}")
         config.set("pygopherd", "root", "/")
 
